@@ -13,6 +13,7 @@ import sys
 seed, module, pkg, rx = sys.argv[1:5]
 go = sys.argv[sys.argv.index("--go") + 1] if "--go" in sys.argv else "go"
 modtests = sys.argv[sys.argv.index("--modtests") + 1] if "--modtests" in sys.argv else "./..."
+touched = sys.argv[sys.argv.index("--touched") + 1].split(",") if "--touched" in sys.argv else [module]
 wt = "/tmp/seedverify-%d" % os.getpid()
 env = dict(os.environ, GOFLAGS="-mod=mod", GOPROXY="off", GOSUMDB="off", GOTOOLCHAIN="local")
 subprocess.run(["git", "-C", "/repo", "worktree", "add", "-f", "--detach", wt, "HEAD"], check=True, capture_output=True)
@@ -37,11 +38,15 @@ try:
     res["demo_output_with_change"] = out[-300:]
     for f in demos:
         os.remove(os.path.join(wt, pkg, os.path.basename(f)))
-    r = subprocess.run([go, "test", "-vet=off", "-count=1", modtests], cwd=os.path.join(wt, module), env=env, capture_output=True, text=True)
-    res["existing_tests_pass_with_change"] = r.returncode == 0
-    if r.returncode != 0:
-        res["existing_tests_output"] = (r.stdout + r.stderr)[-1500:]
-    res["ran"] = "%s test -vet=off -count=1 -run %s %s ; %s test -vet=off -count=1 %s (in %s)" % (go, rx, rel, go, modtests, module)
+    subprocess.run(["git", "-C", wt, "checkout", "--", "*/go.mod", "*/go.sum", "go.mod", "go.sum"], capture_output=True)
+    ok = True
+    for m in touched:
+        r = subprocess.run([go, "test", "-vet=off", "-count=1", modtests], cwd=os.path.join(wt, m), env=env, capture_output=True, text=True)
+        ok = ok and r.returncode == 0
+        if r.returncode != 0:
+            res.setdefault("existing_tests_output", {})[m] = (r.stdout + r.stderr)[-1500:]
+    res["existing_tests_pass_with_change"] = ok
+    res["ran"] = "%s test -vet=off -count=1 -run %s %s (in %s); %s test -vet=off -count=1 %s in each of %s" % (go, rx, rel, module, go, modtests, touched)
 finally:
     subprocess.run(["git", "-C", "/repo", "worktree", "remove", "--force", wt], capture_output=True)
     subprocess.run(["git", "-C", "/repo", "worktree", "prune"], capture_output=True)
